@@ -583,6 +583,84 @@ func smallScope(maxN int) []in {
 	return out
 }
 
+// chains of structures without an offset of their own (they follow a structure with min-size < size), closed by a
+// structure whose explicit offset sweeps over every boundary of the last floating structure: its start, the end of its
+// min-size, the end of its full size (validation must use the full size)
+func floatChains() []in {
+	var out []in
+	for _, s1 := range []int64{2, 3} {
+		for _, s2 := range []int64{2, 4} {
+			for _, m2 := range []int64{0, 1} { // 0: no min-size (fixed)
+				for _, extra := range []int64{0, 2} { // a second floating structure of that size (min 1M) in between
+					start2 := 1 + s1
+					end := start2 + s2 + extra
+					for o3 := start2; o3 <= end+1; o3++ {
+						p2 := structIn{Kind: "part", Size: q(s2, "M")}
+						if m2 > 0 {
+							p2.Min = q(m2, "M")
+						}
+						v := in{Structs: []structIn{{Kind: "part", Off: q(1, "M"), Size: q(s1, "M"), Min: q(1, "M")}, p2}}
+						if extra > 0 {
+							if m2 == 0 {
+								continue // the structure after a fixed-size one gets an implicit offset: covered elsewhere
+							}
+							v.Structs = append(v.Structs, structIn{Kind: "part-nofs", Size: q(extra, "M"), Min: q(1, "M")})
+						}
+						v.Structs = append(v.Structs, structIn{Kind: "part", Off: q(o3, "M"), Size: q(1, "M")})
+						out = append(out, v)
+					}
+				}
+			}
+		}
+	}
+	return out
+}
+
+// random chain: byte-exact offsets around the min-size end and the full-size end of the last floating structure
+func genFloatChain(r *vh.Rand) in {
+	var v in
+	cur := uint64(r.Range(1, 4)) << 20
+	first := structIn{Kind: "part", Off: q(int64(cur), ""), Size: smallQty(r)}
+	first.Min = q(int64(bytesOf(first.Size)/2), "")
+	if bytesOf(first.Min) == 0 {
+		first.Min = nil
+		first.Size = q(2, "M")
+		first.Min = q(1, "M")
+	}
+	v.Structs = append(v.Structs, first)
+	cur += bytesOf(first.Size)
+	n := r.Range(1, 3)
+	var lastStart, lastMin, lastSize uint64
+	for k := 0; k < n; k++ {
+		s := structIn{Kind: r.Pick([]string{"part", "bare", "part-nofs"}), Size: smallQty(r)}
+		b := bytesOf(s.Size)
+		if k < n-1 || r.Chance(3, 4) {
+			m := b / 2
+			if r.Chance(1, 3) && b > 1 {
+				m = b - 1
+			}
+			if m > 0 {
+				s.Min = q(int64(m), "")
+			}
+		}
+		lastStart, lastSize = cur, b
+		lastMin = b
+		if s.Min != nil {
+			lastMin = bytesOf(s.Min)
+		}
+		v.Structs = append(v.Structs, s)
+		cur += b
+	}
+	cands := []uint64{lastStart, lastStart + lastMin - 1, lastStart + lastMin, lastStart + lastMin + 1,
+		lastStart + (lastMin+lastSize)/2, lastStart + lastSize - 1, lastStart + lastSize, lastStart + lastSize + 1, lastStart + lastSize + 1<<20}
+	o := cands[r.Intn(len(cands))]
+	v.Structs = append(v.Structs, structIn{Kind: "part", Off: q(int64(o), ""), Size: smallQty(r)})
+	if r.Chance(1, 3) {
+		v.Structs = append(v.Structs, structIn{Kind: "part", Size: smallQty(r)})
+	}
+	return v
+}
+
 func gen(r *vh.Rand, tier string, n int) []in {
 	if n == 0 {
 		n = 1200
@@ -593,9 +671,12 @@ func gen(r *vh.Rand, tier string, n int) []in {
 	} else {
 		ins = append(ins, smallScope(2)...)
 	}
+	ins = append(ins, floatChains()...)
 	for k := 0; k < n; k++ {
 		if k%8 == 7 {
 			ins = append(ins, genHuge(r))
+		} else if k%8 == 3 {
+			ins = append(ins, genFloatChain(r))
 		} else {
 			ins = append(ins, genVolume(r))
 		}
